@@ -182,6 +182,62 @@ def run(R, tier, seed, driver_ok):
         if repr(est.get_params()) != repr(e2.get_params()):
             R.violation(f'{name}.pickle/params', f'{label}: get_params differs after a pickle round trip', {'cls': label})
 
+    # 7. parameters stay untouched through fit: what get_params returns after fit is the identical object with the
+    #    contents it had at construction, so that clone(fitted) and a refit behave like the first fit
+    #    (array-valued init / prior / basis / preprocessor, float64 so that no conversion copy hides an alias)
+    for name in zoo.ALL:
+        for rep in range(2 if tier == 'quick' else 6):
+            d = int(rng.randint(2, 5))
+            X, y = zoo.blobs(rng, d, 3, 6)
+            prm = zoo.fix_params(name, zoo.default_params(name, rng, d), X, y)
+            B = rng.randn(d, d); spd = np.ascontiguousarray(B.dot(B.T) + np.eye(d))
+            if rep % 2 == 0:
+                if name.startswith(('ITML', 'LSML', 'SDML')):
+                    prm['prior'] = spd
+                if name.startswith('MMC'):
+                    prm['init'] = spd
+                    prm['max_iter'] = 40
+                if name in ('LMNN', 'NCA', 'MLKR'):
+                    prm['init'] = np.ascontiguousarray(rng.randn(d, d))
+                if name.startswith('SCML'):
+                    Bs = rng.randn(3 * d, d); prm['basis'] = Bs / np.linalg.norm(Bs, axis=1, keepdims=True); prm['n_basis'] = 3 * d
+            ia, fa = zoo.fit_args(name, X, y, rng, indices=True)
+            if name.startswith('SDML'):
+                prm['balance_param'] = 1e-7 if 'prior' in prm else zoo.sdml_safe_balance(name, X, fa, prm)
+            if rep % 2 == 1:
+                prm['preprocessor'] = np.ascontiguousarray(X.copy())
+                fa = ia
+            est = zoo.CLASSES[name](**prm)
+            before = {k: (v, copy.deepcopy(v)) for k, v in est.get_params().items()}
+            case = {'cls': name, 'params': {k: v for k, v in prm.items()}, 'X': X, 'y': y}
+            try:
+                with warnings.catch_warnings():
+                    warnings.simplefilter('ignore')
+                    est.fit(*fa)
+                    first = est.components_.copy()
+            except Exception as e:
+                R.count(f'fit-raises:{type(e).__name__}')
+                continue
+            after = est.get_params()
+            for k, (obj, snap) in before.items():
+                R.case(('c18', name, k, 'through-fit', rep, X.tobytes().hex()[:24]), isinstance(obj, np.ndarray), branch='through-fit')
+                if after[k] is not obj:
+                    R.violation(f'{name}.fit/replaces-param-{k}', f'{name}: get_params()[{k!r}] after fit is not the object passed at construction', case)
+                elif isinstance(obj, np.ndarray) and (obj.shape != snap.shape or obj.tobytes() != snap.tobytes()):
+                    R.violation(f'{name}.fit/writes-param-{k}', f'{name}: fit changed the contents of the constructor parameter {k} (max change {np.abs(obj - snap).max():.3g})', case)
+            try:
+                with warnings.catch_warnings():
+                    warnings.simplefilter('ignore')
+                    c = clone(est).fit(*fa)
+                    again = est.fit(*fa).components_
+            except RuntimeError as e:
+                R.count('clone-raises-after-fit')
+                continue
+            R.case(('c18', name, 'clone-after-fit', rep, X.tobytes().hex()[:24]), True, branch='clone-after-fit')
+            for what, got in (('clone(fitted).fit', c.components_), ('refit', again)):
+                if got.shape != first.shape or not np.allclose(got, first, rtol=1e-9, atol=1e-12):
+                    R.violation(f'{name}.{what}/differs', f'{name}: {what} gives components_ that differ from the first fit by {np.abs(got - first).max() if got.shape == first.shape else "shape"}', case)
+
 
 def replay(R, obj):
     print(obj.get('what'))
